@@ -92,8 +92,11 @@ structure Keeps (I : s → Prop) (m : ExceptT ε (StateM s) α) : Prop where
   out : ∀ st, I st → ∀ r s', m.run.run st = (r, s') → I s'
 
 /-- the same for the run from one given state -/
-def KeepsFrom (I : s → Prop) (st : s) (m : ExceptT ε (StateM s) α) : Prop :=
-  ∀ r s', m.run.run st = (r, s') → I s'
+structure KeepsFrom (I : s → Prop) (st : s) (m : ExceptT ε (StateM s) α) : Prop where
+  out : ∀ r s', m.run.run st = (r, s') → I s'
+
+theorem KeepsFrom.of_keeps {I : s → Prop} {st : s} {m : ExceptT ε (StateM s) α} (h : Keeps I m) (hi : I st) :
+    KeepsFrom I st m := ⟨h.out st hi⟩
 
 theorem Keeps.pure (I : s → Prop) (a : α) : Keeps I (pure a : ExceptT ε (StateM s) α) :=
   ⟨fun _ hi _ _ h => by cases h; exact hi⟩
@@ -134,7 +137,49 @@ theorem Keeps.get_bind_from {I : s → Prop} {f : s → ExceptT ε (StateM s) β
   constructor
   intro st hi r s' h
   rw [run_bind] at h
-  exact hf st hi _ _ h
+  exact (hf st hi).out _ _ h
+
+/-- Hoare triple with one invariant: from a state satisfying `I`, a normal return leaves a state
+    satisfying `I`, an exception `e` leaves a state satisfying `E e` -/
+structure Tri (I : s → Prop) (E : ε → s → Prop) (m : ExceptT ε (StateM s) α) : Prop where
+  out : ∀ st, I st → ∀ r s', m.run.run st = (r, s') →
+    match r with
+    | .ok _ => I s'
+    | .error e => E e s'
+
+theorem Tri.pure (I : s → Prop) (E : ε → s → Prop) (a : α) : Tri I E (pure a : ExceptT ε (StateM s) α) :=
+  ⟨fun _ hi _ _ h => by cases h; exact hi⟩
+theorem Tri.get (I : s → Prop) (E : ε → s → Prop) : Tri I E (get : ExceptT ε (StateM s) s) :=
+  ⟨fun _ hi _ _ h => by cases h; exact hi⟩
+theorem Tri.throw {I : s → Prop} {E : ε → s → Prop} {e : ε} (h : ∀ st, I st → E e st) :
+    Tri I E (throw e : ExceptT ε (StateM s) α) :=
+  ⟨fun _ hi _ _ h' => by cases h'; exact h _ hi⟩
+theorem Tri.set {I : s → Prop} {E : ε → s → Prop} {x : s} (hx : I x) :
+    Tri I E (set x : ExceptT ε (StateM s) PUnit) :=
+  ⟨fun _ _ _ _ h => by cases h; exact hx⟩
+theorem Tri.modify {I : s → Prop} {E : ε → s → Prop} {g : s → s} (hg : ∀ st, I st → I (g st)) :
+    Tri I E (modify g : ExceptT ε (StateM s) PUnit) :=
+  ⟨fun _ hi _ _ h => by cases h; exact hg _ hi⟩
+
+theorem Tri.bind {I : s → Prop} {E : ε → s → Prop} {x : ExceptT ε (StateM s) α}
+    {f : α → ExceptT ε (StateM s) β} (hx : Tri I E x) (hf : ∀ a, Tri I E (f a)) : Tri I E (x >>= f) := by
+  constructor
+  intro st hi r s' h
+  rw [run_bind] at h
+  cases hr : x.run.run st with
+  | mk r1 s1 =>
+    rw [hr] at h
+    have h1 := hx.out st hi _ _ hr
+    cases r1 with
+    | ok a => exact (hf a).out _ h1 _ _ h
+    | error e1 => cases h; exact h1
+
+theorem Tri.get_bind {I : s → Prop} {E : ε → s → Prop} {f : s → ExceptT ε (StateM s) β}
+    (hf : ∀ r, I r → Tri I E (f r)) : Tri I E (MonadState.get >>= f) := by
+  constructor
+  intro st hi r s' h
+  rw [run_bind] at h
+  exact (hf st hi).out st hi _ _ h
 
 end kit
 
@@ -152,18 +197,22 @@ elab "throws_jp" : tactic => withMainContext do
   let g ← getMainGoal
   let t ← instantiateMVars (← g.getType)
   let some C := t.getAppFn.constName? | throwError "not a Throws/Returns goal"
-  unless C == ``Throws || C == ``Returns || C == ``Keeps do throwError "not a Throws/Returns goal"
+  unless C == ``Throws || C == ``Returns || C == ``Keeps || C == ``KeepsFrom || C == ``Tri do
+    throwError "not a Throws/Returns goal"
   let .letE n ty v b _ := t.appArg! | throwError "no join point"
-  let P := t.appFn!.appArg!
+  if C == ``KeepsFrom then
+    let g' ← g.replaceTargetDefEq (mkApp t.appFn! (b.instantiate1 v))
+    replaceMainGoal [g']
+    return
   let .forallE rn rty _ _ ← whnfR ty
     | do let g' ← g.replaceTargetDefEq (mkApp t.appFn! (b.instantiate1 v))
          replaceMainGoal [g']
          return
   let t2 ← withLocalDeclD rn rty fun r => do
-    mkForallFVars #[r] (← mkAppM C #[P, (mkApp v r).headBeta])
+    mkForallFVars #[r] (mkApp t.appFn! (mkApp v r).headBeta)
   let t1 ← withLocalDeclD n ty fun jp => do
     let hty ← withLocalDeclD rn rty fun r => do
-      mkForallFVars #[r] (← mkAppM C #[P, mkApp jp r])
+      mkForallFVars #[r] (mkApp t.appFn! (mkApp jp r))
     withLocalDeclD `hjp hty fun hjp => do
       mkForallFVars #[jp, hjp] (mkApp t.appFn! (b.instantiate1 jp))
   let g1 ← mkFreshExprSyntheticOpaqueMVar t1
@@ -177,7 +226,8 @@ elab "throws_hyp" : tactic => withMainContext do
   for d in (← getLCtx) do
     if d.isImplementationDetail then continue
     let ty ← instantiateMVars d.type
-    if ty.getForallBody.isAppOf ``Throws || ty.getForallBody.isAppOf ``Returns || ty.getForallBody.isAppOf ``Keeps then
+    if ty.getForallBody.isAppOf ``Throws || ty.getForallBody.isAppOf ``Returns || ty.getForallBody.isAppOf ``Keeps
+        || ty.getForallBody.isAppOf ``Tri then
       let s ← saveState
       try
         let gs ← withReducible (g.apply d.toExpr)
@@ -225,11 +275,15 @@ macro "returns_auto" : tactic => `(tactic| repeat' first
     predicate must not mention the fields the action changes) -/
 syntax "keeps_close" : tactic
 macro_rules | `(tactic| keeps_close) => `(tactic| assumption)
+/-- decoder-specific steps tried first (extended by `macro_rules` where needed) -/
+syntax "keeps_extra" : tactic
+macro_rules | `(tactic| keeps_extra) => `(tactic| fail "no extra step")
 syntax "keeps_auto" (" [" term,* "]")? : tactic
 macro_rules
   | `(tactic| keeps_auto [$ts,*]) => do
     let alts ← ts.getElems.mapM fun t => `(tacticSeq| with_reducible apply $t)
     `(tactic| repeat' first
+      | keeps_extra
       | with_reducible exact Keeps.pure _ _
       | with_reducible exact Keeps.throw _ _
       | with_reducible exact Keeps.get _
@@ -243,6 +297,28 @@ macro_rules
       | intro _
       | split)
   | `(tactic| keeps_auto) => `(tactic| keeps_auto [Keeps.pure _ _])
+
+/-- the same for `Tri`; `tri_close` proves `I (updated state)` / `E e st` goals (decoder-specific) -/
+syntax "tri_close" : tactic
+macro_rules | `(tactic| tri_close) => `(tactic| assumption)
+syntax "tri_auto" (" [" term,* "]")? : tactic
+macro_rules
+  | `(tactic| tri_auto [$ts,*]) => do
+    let alts ← ts.getElems.mapM fun t => `(tacticSeq| with_reducible apply $t)
+    `(tactic| repeat' first
+      | with_reducible exact Tri.pure _ _ _
+      | with_reducible exact Tri.get _ _
+      | ((with_reducible refine Tri.throw ?_); intro _ _; tri_close)
+      | ((with_reducible refine Tri.set ?_); tri_close)
+      | ((with_reducible refine Tri.modify ?_); intro _ _; tri_close)
+      | ((with_reducible refine Tri.get_bind ?_); intro _ _)
+      | with_reducible refine Tri.bind ?_ ?_
+      | throws_hyp
+      $[| $alts]*
+      | throws_jp
+      | intro _
+      | split)
+  | `(tactic| tri_auto) => `(tactic| tri_auto [Tri.pure _ _ _])
 
 /-! ## MSZIP -/
 namespace Zip
@@ -726,7 +802,27 @@ def HaltOk : Qtm.Halt → Prop
 /-- bytes handed out so far + bytes still owed = the request -/
 def Bal (T : Nat) (r : Run σ) : Prop := r.written.size + r.outBytes = T
 
-macro_rules | `(tactic| keeps_close) => `(tactic| (unfold Bal at *; assumption))
+theorem Bal_of {T : Nat} {a b : Run σ} (h : Bal T a) (h1 : b.written = a.written)
+    (h2 : b.outBytes = a.outBytes) : Bal T b := by
+  unfold Bal at *; rw [h1, h2]; exact h
+
+open Lean Elab Tactic Meta in
+/-- `Bal T b` from a hypothesis `Bal T a` with `b.written = a.written`, `b.outBytes = a.outBytes` by
+    `rfl`.  (Not by defeq of `Bal T a` and `Bal T b`: the kernel compares the two `Run` records
+    field by field first and gets lost in `… % u32`.) -/
+elab "bal_close" : tactic => withMainContext do
+  for d in (← getLCtx) do
+    if d.isImplementationDetail then continue
+    if (← instantiateMVars d.type).isAppOf ``Bal then
+      let s ← saveState
+      try
+        let stx ← Term.exprToSyntax d.toExpr
+        evalTactic (← `(tactic| exact Bal_of $stx rfl rfl))
+        return
+      catch _ => s.restore
+  throwError "no balanced state in sight"
+
+macro_rules | `(tactic| keeps_close) => `(tactic| bal_close)
 
 section helpers
 variable (T : Nat)
